@@ -249,7 +249,11 @@ def pre_post_clause(cl, rng, n, replay):
         raise_case = j % 4 == 3
         if raise_case:
             # accepted = two bumps, rejected = steep monotone curves: the all-accepted state has no mean-curve peak in the range
-            A = np.array([bump(2.0), bump(2.2)] + [np.linspace(60, 1, 40) * rng.uniform(1, 2) for _ in range(3)])
+            # (the ramps are made steep enough for the mean curve - arithmetic and geometric - of all five windows to decrease monotonically: checked here, not assumed)
+            for steep in (4.0, 5.0, 6.0, 8.0):
+                A = np.array([bump(2.0), bump(2.2)] + [10.0 ** (2 * steep) * rng.uniform(1, 2) * (f / f[0]) ** (-steep) + 1.0 for _ in range(3)])
+                if np.all(np.diff(A.mean(axis=0)) < 0) and np.all(np.diff(np.log(A).mean(axis=0)) < 0):
+                    break
             k = 5
         h = hvsrpy.HvsrTraditional(f, A)
         sel = rng.random(k) < 0.7
@@ -268,6 +272,10 @@ def pre_post_clause(cl, rng, n, replay):
             fig, axs = hvsrpy.plot_pre_and_post_rejection(recs, h)
         except ValueError:
             raised = True
+        if raise_case and not raised:
+            cl.fail("bounded.C20.pre_post_clause", "the configuration built to make the all-accepted panel fail did not raise: this case no longer tests the restore on the error path",
+                    signature="harness:raising-configuration-does-not-raise")
+            return
         cl.case((j, raise_case, raised))
         try:
             if deep_snapshot(h) != snap:
